@@ -351,7 +351,7 @@ def gen_store(pid, tier, seed, scale, rng, hists, stats):
             hists.append(sg.map_history(rng, rng.randint(10, 80)))
             stats["mixed-kind map histories"] += 1
         if FAR_OK:
-            for sid in (rng.sample(range(16), 2) if q else range(16)):
+            for sid in (rng.sample(range(16), 1) if q else range(16)):
                 hists.append(sg.far_history(rng, sid))
                 stats["far-apart indices (>= 64^3)"] += 1
         for _ in range((200 if q else 2000) * scale):
@@ -359,7 +359,7 @@ def gen_store(pid, tier, seed, scale, rng, hists, stats):
             stats["random storage histories"] += 1
 
 
-FAR_OK = False   # far-apart index histories need the O(1) free-cell test of the specification
+FAR_OK = True
 
 STORE_PROPS = ("C03", "C04", "C05", "C08", "C12")
 
